@@ -237,4 +237,23 @@ THEOREM PayKeepsChips ==
     <3> QED BY <3>1, <3>2, <3>3, <3>4 DEF ChipIdentity
   <2> QED BY <2>3, <2>4, <2>5, <2>6, <2>7, <1>0, <1>2 DEF PlayerOK
 <1> QED BY <1>1, <1>2, <1>0 DEF PlayerOK
+
+\* the other chip-moving operator inside a hand: at the end of a betting round the wagers go to the pot
+THEOREM RoundEndKeepsChips ==
+  ASSUME NEW g, Struct(g), ChipIdentity(g)
+  PROVE  LET t == ResetAllPlayerStatus(g) IN
+         /\ Struct(t) /\ ChipIdentity(t) /\ t.n = g.n /\ t.roundPot = g.roundPot
+         /\ \A j \in Seats(g) : /\ t.P[j].bankroll = g.P[j].bankroll /\ t.P[j].stack = g.P[j].stack
+                                  /\ t.P[j].wager = 0 /\ t.P[j].pot = g.P[j].pot + g.P[j].wager /\ t.P[j].init = g.P[j].stack
+<1> DEFINE t == ResetAllPlayerStatus(g)
+<1>1. /\ Struct(t) /\ t.n = g.n /\ t.roundPot = g.roundPot
+      /\ \A j \in Seats(g) : /\ t.P[j].bankroll = g.P[j].bankroll /\ t.P[j].stack = g.P[j].stack
+                               /\ t.P[j].wager = 0 /\ t.P[j].pot = g.P[j].pot + g.P[j].wager /\ t.P[j].init = g.P[j].stack
+  BY DEF ResetAllPlayerStatus, Struct, Seats, GF, PF
+<1>2. Seats(t) = Seats(g)
+  BY <1>1 DEF Seats
+<1>3. ChipIdentity(t)
+  <2> HIDE DEF t
+  <2> QED BY <1>1, <1>2 DEF ChipIdentity, PlayerOK
+<1> QED BY <1>1, <1>3
 =============================================================================
